@@ -226,7 +226,7 @@ type expectation struct {
 	optRoots    uint32    // targets an alias matched by a pattern points to, but which fail a filter: undefined
 	must        uint32    // targets that must be selected
 	may         uint32    // targets that may be selected
-	errRoots    uint32 // required roots with a platform-incompatible (transitive) dependency
+	errRoots    uint32    // required roots with a platform-incompatible (transitive) dependency
 	errRequired bool
 	errAllowed  bool
 }
